@@ -122,7 +122,7 @@ func (e *eccKeyAgreement) processClientKeyExchange(hs *serverHandshakeState, ckx
 	}
 	config := hs.c.config
 
-	if len(ckx.ciphertext) == 0 {
+	if len(ckx.ciphertext) < 2 {
 		return nil, errClientKeyExchange
 	}
 
@@ -134,6 +134,10 @@ func (e *eccKeyAgreement) processClientKeyExchange(hs *serverHandshakeState, ckx
 	}
 
 	cipher := ckx.ciphertext[2:]
+	// 至少包含 ASN.1 SEQUENCE 标签与长度字节，避免下面的下标访问越界
+	if len(cipher) < 3 {
+		return nil, errClientKeyExchange
+	}
 	if cipher[0] != 0x30 {
 		return nil, errors.New("tlcp: bad client key exchange ciphertext format")
 	}
